@@ -1,15 +1,38 @@
 package h
 
 import (
+	"encoding/json"
 	"fmt"
 	"strconv"
 
+	"github.com/netflix/rend/handlers/memcached/chunked"
+
+	"verif/fakemc"
 	"verif/rt"
+	"verif/sched"
 	"verif/wire"
 )
 
 func init() {
-	rt.Register("C05", rt.Harness{Run: runC05, Replay: replayChunkLoss})
+	rt.Register("C05", rt.Harness{Run: runC05, Replay: func(c *rt.Ctx, raw json.RawMessage) string {
+		var probe struct {
+			Race *ChunkRace `json:"race"`
+		}
+		if json.Unmarshal(raw, &probe) == nil && probe.Race != nil {
+			var r *chunkRaceResult
+			sched.Bubble(c.T, func() { r = runChunkRace(*probe.Race, probe.Race.Choices) })
+			out := fmt.Sprintf("race %+v\nschedule: %s\noutcome: %s\n", *probe.Race, r.S.Describe(), r.Outcome)
+			if len(r.Findings) == 0 {
+				return out + "OK: no finding"
+			}
+			s := "VIOLATION reproduced:\n"
+			for _, f := range r.Findings {
+				s += "  " + f.Sig + " :: " + f.What + "\n"
+			}
+			return s + out
+		}
+		return replayChunkLoss(c, raw)
+	}})
 }
 
 // lossScenario: write A; optionally overwrite with B; remove a subset of the key's entries; read.
@@ -156,4 +179,164 @@ func runC05(c *rt.Ctx) {
 		}
 	}
 	c.Set("max_chunks", maxN)
+	exploreChunkRaces(c, &item)
+}
+
+// ---------------------------------------------------------------------------------------------
+// (b) two writers and a reader on the same key through separate connections, every interleaving
+// at backend-request granularity; (c) every final state followed by every single-entry loss.
+
+// ChunkRace is the concurrent scenario.
+type ChunkRace struct {
+	NA, NB  int    `json:"na_nb"`
+	Reader  string `json:"reader"` // get | gat | append
+	Choices []int  `json:"choices"`
+}
+
+type chunkRaceResult struct {
+	S        *sched.Sched
+	Findings []Finding
+	Outcome  string
+}
+
+func runChunkRace(sc ChunkRace, prefix []int) *chunkRaceResult {
+	res := &chunkRaceResult{}
+	key := "k"
+	p := payloadFor(len(key))
+	size := func(n int) int { return (n-1)*p + p/3 + 1 }
+	st := fakemc.NewStore("L1")
+	s := sched.New(prefix)
+	res.S = s
+	mk := func(name string) (chunked.Handler, *fakemc.Conn) {
+		c := fakemc.NewConn(st, name)
+		c.Before = func(c *fakemc.Conn, f *fakemc.Frame) { s.Point(name+":"+frameTag(f), nil) }
+		return chunked.NewHandler(c), c
+	}
+	opA := wire.Op{Kind: "set", Key: key, VGen: true, VLen: size(sc.NA), VSeed: 71, Flags: 0xA}
+	opB := wire.Op{Kind: "set", Key: key, VGen: true, VLen: size(sc.NB), VSeed: 72, Flags: 0xB}
+	written := [][]byte{opA.Value(), opB.Value()}
+	flags := []uint32{0xA, 0xB}
+	var suffix []byte
+	rd := wire.Op{Kind: sc.Reader, Key: key, TTL: 100}
+	if sc.Reader == "append" {
+		rd = wire.Op{Kind: "append", Key: key, VGen: true, VLen: 4, VSeed: 73}
+		suffix = rd.Value()
+	}
+	oracle := lossOracle(written, flags, suffix, false)
+	var conns []*fakemc.Conn
+	var results [4]HRes
+	hA, cA := mk("A")
+	hB, cB := mk("B")
+	hR, cR := mk("R")
+	conns = append(conns, cA, cB, cR)
+	s.Go(0, func() { results[0] = CallHandler(hA, opA) })
+	s.Go(1, func() { results[1] = CallHandler(hB, opB) })
+	s.Go(2, func() {
+		results[2] = CallHandler(hR, rd)
+		if sc.Reader == "append" {
+			results[3] = CallHandler(hR, wire.Op{Kind: "get", Key: key})
+		}
+	})
+	s.Run()
+	add := func(clause, what string) {
+		res.Findings = append(res.Findings, Finding{Sig: fmt.Sprintf("C05 %s reader=%s", clause, sc.Reader), What: what, Clause: clause})
+	}
+	if s.Deadlock {
+		add("deadlock", s.DeadlockInfo)
+		return res
+	}
+	for _, c := range conns {
+		if c.Hung || c.Spun {
+			add("backend-stream", fmt.Sprintf("connection %s: hung=%v spun=%v", c.Name, c.Hung, c.Spun))
+		}
+	}
+	res.Outcome = fmt.Sprintf("A=%s B=%s R=%s R2=%s", results[0].Class, results[1].Class, results[2], results[3])
+	for i := 2; i < 4; i++ {
+		if results[i].Class == "" {
+			continue
+		}
+		if c, d := oracle(results[i]); c != "" {
+			add(c, fmt.Sprintf("concurrent reader: %s", d))
+		}
+	}
+	// (c) every single-entry loss of the final state, then a read on a fresh connection
+	for _, ek := range st.Keys() {
+		cl := st.Clone()
+		cl.Evict(ek)
+		h := chunked.NewHandler(fakemc.NewConn(cl, "F"))
+		for _, kind := range []string{"get", "gat"} {
+			r := CallHandler(h, wire.Op{Kind: kind, Key: key, TTL: 50})
+			if c, d := oracle(r); c != "" {
+				add(c+"-after-loss", fmt.Sprintf("after the interleaved writes and the loss of entry %q: %s", ek, d))
+			}
+		}
+	}
+	{
+		h := chunked.NewHandler(fakemc.NewConn(st.Clone(), "F"))
+		r := CallHandler(h, wire.Op{Kind: "get", Key: key})
+		if c, d := oracle(r); c != "" {
+			add(c+"-final", fmt.Sprintf("read after both writes completed: %s", d))
+		}
+		res.Outcome += " final=" + r.Class + fmt.Sprint(len(r.Hits))
+	}
+	return res
+}
+
+func exploreChunkRaces(c *rt.Ctx, item *int) {
+	shapes := [][2]int{{2, 2}, {1, 2}, {2, 1}}
+	bound := -1
+	if c.Thorough() {
+		shapes = append(shapes, [2]int{3, 3}, [2]int{3, 2}, [2]int{1, 3})
+	}
+	for _, sh := range shapes {
+		for _, rd := range []string{"get", "gat", "append"} {
+			*item++
+			if !c.Mine(*item) {
+				continue
+			}
+			sc := ChunkRace{NA: sh[0], NB: sh[1], Reader: rd}
+			b := bound
+			if sh[0]+sh[1] >= 5 {
+				b = 3
+			}
+			if rd == "append" { // a read followed by a full re-write: bound the preemptions
+				b = 2
+				if c.Thorough() {
+					b = 3
+				}
+			}
+			ex := &sched.Explorer{Bound: b, MaxExecs: 400000, Expired: c.Expired}
+			outs := map[string]bool{}
+			violated := false
+			ex.Explore(func(prefix []int) *sched.Sched {
+				var r *chunkRaceResult
+				sched.Bubble(c.T, func() { r = runChunkRace(sc, prefix) })
+				c.Eval(1)
+				c.Trace(1)
+				c.Trans(int64(len(r.S.Trace)))
+				outs[r.Outcome] = true
+				for _, f := range r.Findings {
+					violated = true
+					scc := sc
+					scc.Choices = r.S.Choices()
+					c.Violation(f.Sig, f.What+"\nschedule: "+r.S.Describe(), map[string]interface{}{"race": scc})
+				}
+				return r.S
+			}, func(s *sched.Sched) bool { return !violated })
+			if ex.Truncated {
+				c.Cap(fmt.Sprintf("schedule cap reached for chunk race %v reader %s (preemption bound %d)", sh, rd, b))
+			}
+			key := fmt.Sprintf("race|%v|%s", sh, rd)
+			c.Distinct(key)
+			c.Nontrivial(key)
+			c.State(int64(len(outs)))
+			var o []string
+			for k := range outs {
+				if len(o) < 6 {
+					o = append(o, k)
+				}
+			}
+			c.Sample(map[string]interface{}{"chunks_A_B": sh, "reader": rd, "schedules": ex.Execs, "outcomes": o})
+		}
+	}
 }
